@@ -67,7 +67,7 @@ func (f *Ash) Call(s *slip.Scope, args slip.List, depth int) (result slip.Object
 					checkIntegerBits(s, depth, f, args, float64(sh)+64)
 				}
 				var z big.Int
-				result = (*slip.Bignum)(z.Lsh(big.NewInt(int64(ti)), uint(sh)))
+				result = slip.IntegerFromBig(z.Lsh(big.NewInt(int64(ti)), uint(sh)))
 			}
 		}
 	case slip.Octet:
@@ -85,7 +85,7 @@ func (f *Ash) Call(s *slip.Scope, args slip.List, depth int) (result slip.Object
 			checkIntegerBits(s, depth, f, args, float64(sh)+float64((*big.Int)(ti).BitLen()))
 			bi.Lsh((*big.Int)(ti), uint(sh))
 		}
-		result = (*slip.Bignum)(&bi)
+		result = slip.IntegerFromBig(&bi)
 	default:
 		slip.TypePanic(s, depth, "integer", ti, "integer")
 	}
